@@ -96,6 +96,21 @@ impl LibraryRenderer {
     }
 }
 
+impl LibraryRenderer {
+    /// Writes the steps before or after a transition: a single step name, or
+    /// a parenthesized list of two or more step names.
+    fn visit_transition_steps(&mut self, steps: &[Id]) -> Result<(), Diagnostic> {
+        if steps.len() > 1 {
+            self.write_ws("(");
+        }
+        visit_comma_separated!(self, steps.iter(), Id);
+        if steps.len() > 1 {
+            self.write_ws(")");
+        }
+        Ok(())
+    }
+}
+
 impl Visitor<Diagnostic> for LibraryRenderer {
     type Value = ();
 
@@ -903,13 +918,23 @@ impl Visitor<Diagnostic> for LibraryRenderer {
 
     // 2.6.3
     fn visit_transition(&mut self, node: &dsl::sfc::Transition) -> Result<Self::Value, Diagnostic> {
-        self.write_ws("TRANSITION FROM");
+        self.write_ws("TRANSITION");
 
-        visit_comma_separated!(self, node.from.iter(), Id);
+        if let Some(name) = &node.name {
+            self.visit_id(name)?;
+        }
+
+        if let Some(priority) = &node.priority {
+            self.write_ws("( PRIORITY :=");
+            self.write_ws(priority.to_string().as_str());
+            self.write_ws(")");
+        }
+
+        self.write_ws("FROM");
+        self.visit_transition_steps(&node.from)?;
 
         self.write_ws("TO");
-
-        visit_comma_separated!(self, node.to.iter(), Id);
+        self.visit_transition_steps(&node.to)?;
         self.newline();
 
         self.indent();
